@@ -5,24 +5,20 @@ use hxlib::util::Rng;
 /// lengths to sweep: quick = all small lengths, every SIMD boundary (multiples of 8/16/32/64 +-1)
 /// up to 1100 and a few random ones; thorough = all of 0..=1100.
 pub fn lengths(rng: &mut Rng, thorough: bool) -> Vec<usize> {
-    if thorough {
-        return (0..=1100).collect();
-    }
-    let mut v: Vec<usize> = (0..=72).collect();
-    let mut k = 80;
-    while k <= 1100 {
-        let step = if k < 256 { 16 } else if k < 512 { 64 } else { 128 };
-        for d in [-1i64, 0, 1] {
-            v.push((k as i64 + d) as usize);
+    let mut v: Vec<usize> = if thorough { (0..=1100).collect() } else { (0..=40).collect() };
+    if !thorough {
+        v.extend([47, 48, 49, 63, 64, 65, 71, 72, 73, 79, 80, 81, 95, 96, 97, 127, 128, 129, 255, 256, 257, 511, 512, 513, 1023, 1024, 1025, 1099, 1100]);
+        for _ in 0..6 {
+            v.push(rng.range(41, 1100) as usize);
         }
-        k += step;
-    }
-    v.extend([100, 127, 128, 129, 255, 256, 257, 511, 512, 513, 1000, 1023, 1024, 1025, 1099, 1100]);
-    for _ in 0..12 {
-        v.push(rng.range(73, 1100) as usize);
     }
     v.sort();
     v.dedup();
+    // mix short and long vectors so that the Coq shards have similar sizes
+    for i in (1..v.len()).rev() {
+        let j = rng.below(i as u64 + 1) as usize;
+        v.swap(i, j);
+    }
     v
 }
 
